@@ -13,6 +13,7 @@ import (
 	"time"
 
 	"github.com/Jigsaw-Code/outline-sdk/transport/shadowsocks"
+	onet "github.com/Jigsaw-Code/outline-ss-server/net"
 	"github.com/Jigsaw-Code/outline-ss-server/service"
 )
 
@@ -264,6 +265,31 @@ type udpCase struct {
 	sums     map[string][4]int64 // keyid -> reported c>p, p>t, p<t, c<p
 	obs      map[string][4]int64 // keyid -> observed on sockets
 	idOf     map[string]string   // client -> key id given at natadd
+	conn2    *scriptConn         // second listener served by the SAME handler (own NAT table)
+	hook     *valHook
+}
+
+// valHook lets the harness hold one datagram inside the target-IP validator (public API:
+// SetTargetIPValidator) while another listener of the same handler processes a datagram.
+type valHook struct {
+	mu      sync.Mutex
+	armed   bool
+	reached chan struct{}
+	release chan struct{}
+}
+
+func (h *valHook) take() bool {
+	h.mu.Lock()
+	defer h.mu.Unlock()
+	a := h.armed
+	h.armed = false
+	return a
+}
+
+type pktOpts struct {
+	conn       *scriptConn
+	forceValid bool
+	mid        func() []event // runs after the datagram was handed to the handler, before waiting for it
 }
 
 func (u *udpCase) clientIPID(a *net.UDPAddr) int {
@@ -338,13 +364,27 @@ func (u *udpCase) run(caseNo int) {
 		return
 	}
 	h := service.NewPacketHandler(time.Hour, cl, &udpMetricsRec{ev: u.ev}, &searchRec{ev: u.ev})
-	if u.allow {
-		h.SetTargetIPValidator(func(net.IP) error { return nil })
-	}
+	u.hook = &valHook{reached: make(chan struct{}, 1), release: make(chan struct{})}
+	allow := u.allow
+	hook := u.hook
+	h.SetTargetIPValidator(func(ip net.IP) error {
+		if hook.take() {
+			hook.reached <- struct{}{}
+			<-hook.release
+		}
+		if allow {
+			return nil
+		}
+		return onet.RequirePublicIP(ip)
+	})
 	u.conn = newScriptConn(u.ev)
+	u.conn2 = newScriptConn(u.ev)
 	done := make(chan struct{})
+	done2 := make(chan struct{})
 	go func() { h.Handle(u.conn); close(done) }()
+	go func() { h.Handle(u.conn2); close(done2) }()
 	<-u.conn.idle
+	<-u.conn2.idle
 	v := "validator=default"
 	if u.allow {
 		v = "validator=allow"
@@ -365,8 +405,10 @@ func (u *udpCase) run(caseNo int) {
 	for k := 0; k < nops; k++ {
 		u.flushAsync()
 		switch {
+		case r.Chance(6):
+			u.opInterleaved(unknown)
 		case r.Chance(62) || len(u.natPort) == 0:
-			u.opPkt(Pick(r, clients), unknown)
+			u.opPkt(Pick(r, clients), unknown, pktOpts{conn: u.conn})
 		case r.Chance(85):
 			u.opReply()
 		default:
@@ -405,10 +447,13 @@ func (u *udpCase) run(caseNo int) {
 	// shutdown: closing the client conn ends Handle, natmap.Close expires every association
 	u.flushAsync()
 	u.conn.Close()
-	select {
-	case <-done:
-	case <-time.After(3 * time.Second):
-		out.Oracle("C18", "packet handler did not return after its connection was closed")
+	u.conn2.Close()
+	for _, d := range []chan struct{}{done, done2} {
+		select {
+		case <-d:
+		case <-time.After(3 * time.Second):
+			out.Oracle("C18", "packet handler did not return after its connection was closed")
+		}
 	}
 	live := len(u.natPort)
 	for dl := time.Now().Add(3 * time.Second); u.countRemoves() < live && time.Now().Before(dl); {
@@ -583,7 +628,37 @@ func parseSocks(b []byte) (kind byte, host string, port int, n int, ok bool) {
 	return b[0], host, port, n, true
 }
 
-func (u *udpCase) opPkt(client *net.UDPAddr, unknown []*specKey) {
+// opInterleaved: a first datagram of a new client on listener 1 is held inside the validator (after
+// decryption, before it is forwarded) while a first datagram of another new client goes through
+// listener 2 of the same handler.  Listeners own their NAT tables but share handler and key list.
+func (u *udpCase) opInterleaved(unknown []*specKey) {
+	r := u.r
+	a := &net.UDPAddr{IP: net.IPv4(198, 51, 100, 60).To4(), Port: 41000 + r.Intn(20000)}
+	b := &net.UDPAddr{IP: net.IPv4(198, 51, 100, 61).To4(), Port: 41000 + r.Intn(20000)}
+	if _, ok := u.natPort[a.String()]; ok {
+		return
+	}
+	u.hook.mu.Lock()
+	u.hook.armed = true
+	u.hook.mu.Unlock()
+	u.out.Stat("op.interleaved", 1)
+	u.opPkt(a, unknown, pktOpts{conn: u.conn, forceValid: true, mid: func() []event {
+		select {
+		case <-u.hook.reached:
+		case <-time.After(2 * time.Second):
+			u.hook.take()
+			return nil
+		}
+		pre := u.ev.take()
+		u.out.Op("udp conn 2", "ok")
+		u.opPkt(b, unknown, pktOpts{conn: u.conn2, forceValid: true})
+		u.out.Op("udp conn 1", "ok")
+		u.hook.release <- struct{}{}
+		return pre
+	}})
+}
+
+func (u *udpCase) opPkt(client *net.UDPAddr, unknown []*specKey, opts pktOpts) {
 	r, out := u.r, u.out
 	cs := client.String()
 	_, hasAssoc := u.natPort[cs]
@@ -626,10 +701,21 @@ func (u *udpCase) opPkt(client *net.UDPAddr, unknown []*specKey) {
 	}
 	usedKey, usedRef = u.kt.keys[ce.keyref], ce.keyref
 	roll := r.Intn(100)
+	if opts.forceValid {
+		roll = 0
+	}
 	switch {
 	case roll < 62:
 		d = u.pickDest()
+		if opts.forceValid {
+			for i := 0; i < 50 && (d.kind == "domain-literal" || (!u.allow && !u.isPublicSink(d.sink))); i++ {
+				d = u.pickDest()
+			}
+		}
 		plain = append(append([]byte{}, d.header...), mkPayload()...)
+		if opts.forceValid {
+			plain = append(append([]byte{}, d.header...), r.Bytes(20+r.Intn(100))...)
+		}
 	case roll < 68: // special hosts
 		kind = "special-host"
 		hosts := []string{"localhost", "nonexistent.invalid", "fe80::5%lo", "256.1.1.1", strings.Repeat("a", 255), "127.0.0.1", "::ffff:10.1.2.3"}
@@ -727,13 +813,17 @@ func (u *udpCase) opPkt(client *net.UDPAddr, unknown []*specKey) {
 		intsField(opens), hexs(specPlain), res)
 	fmt.Fprintf(os.Stderr, "#intent %s\n", op[:min(len(op), 200)])
 	// ---- feed it and collect what happened
-	u.conn.in <- scriptPkt{data: wire, addr: client}
+	opts.conn.in <- scriptPkt{data: wire, addr: client}
+	var pre []event
+	if opts.mid != nil {
+		pre = opts.mid()
+	}
 	select {
-	case <-u.conn.idle:
+	case <-opts.conn.idle:
 	case <-time.After(5 * time.Second):
 		out.Oracle("C18", "packet handler stopped reading after a datagram (%s)", kind)
 	}
-	evs := u.ev.take()
+	evs := append(pre, u.ev.take()...)
 	var parts []string
 	reportedOK := false
 	var natadd *event
